@@ -23,6 +23,7 @@ func main() {
 	manifest := flag.String("manifest", "", "write MANIFEST.json to this path and exit")
 	tags := flag.String("tags", "verif", "build tags used to load /repo (hooks guard)")
 	outDir := flag.String("out", "", "evidence directory (default <verif>/evidence)")
+	writeLoops := flag.Bool("write-loop-baseline", false, "record per function the number of early-exit collection loops of -repo (checker/baseline_loops.txt) and exit")
 	writeBase := flag.Bool("write-baseline", false, "record the functions declared in -repo as the baseline (checker/baseline_funcs.txt) and exit")
 	flag.Parse()
 
@@ -52,6 +53,17 @@ func main() {
 	verifDirGlobal = *verif
 	if *writeBase {
 		if err := writeBaseline(*repo, *tags, filepath.Join(*verif, "checker", "baseline_funcs.txt")); err != nil {
+			fmt.Fprintln(os.Stderr, err)
+			os.Exit(2)
+		}
+		return
+	}
+	if *writeLoops {
+		P, err := Load(*repo, *tags, false, nil)
+		if err == nil {
+			err = writeLoopBaseline(P, filepath.Join(*verif, "checker", "baseline_loops.txt"))
+		}
+		if err != nil {
 			fmt.Fprintln(os.Stderr, err)
 			os.Exit(2)
 		}
@@ -113,7 +125,7 @@ func run(def *PropDef, tier, repo, verif, tags string, seed int, replayOb *Ob) (
 		return 2
 	}
 	c := newCheck(P, def.ID, tier)
-	def.Run(c)
+	runProperty(def, c)
 	extra := map[string]interface{}{}
 	if tier == "thorough" {
 		thorough(def, c, repo, verif, tags, extra)
@@ -162,7 +174,7 @@ func runAll(tier, repo, verif, tags string, seed int) (code int) {
 				}
 			}()
 			c := newCheck(P, id, tier)
-			def.Run(c)
+			runProperty(def, c)
 			rc := c.finish(def, known, evidenceDir, time.Since(start).Seconds(), seed, map[string]interface{}{})
 			if rc > code {
 				code = rc
